@@ -221,6 +221,16 @@ def make_job(sde_type, noise, B, d, m, grad_enabled):
         vt = XT(v)
         gm = GradMode(grad_enabled)
         gm.__pyvc_enter__(cx)
+        # frame: the vector fields are functions of their arguments -- no method may store anything on the AdjointSDE object (a value
+        # remembered from one query could be served to a query at another time or state)
+        written = []
+        prev_setattr = E.hooks.get('setattr')
+
+        def watch(eng, obj, name, v_, cx_, lineno):
+            if obj is adj:
+                written.append((name, lineno))
+            return prev_setattr(eng, obj, name, v_, cx_, lineno) if prev_setattr is not None else NotImplemented
+        E.hooks['setattr'] = watch
         try:
             results = {}
             results['f'] = E.call(E.get_attr(adj, 'f', cx, 0), [tau, y_aug], {}, cx, 0)
@@ -240,6 +250,12 @@ def make_job(sde_type, noise, B, d, m, grad_enabled):
                             'discharged' if e.cls == 'NotImplementedError' else 'refuted', 'pyvc-exec')
         finally:
             gm.__pyvc_exit__(cx)
+            if prev_setattr is not None:
+                E.hooks['setattr'] = prev_setattr
+            else:
+                E.hooks.pop('setattr', None)
+        rep.add(f'{tag}/frame.vector-fields-store-nothing-on-the-AdjointSDE', 'frame', 'discharged' if not written else 'refuted', 'pyvc-exec',
+                model=None if not written else {'attributes written': [f'{n} (line {l})' for n, l in written[:4]]})
         want = {'f': flat_blocks(orc.drift), 'f_and_g_prod.f': flat_blocks(orc.drift)}
         gp = flat_blocks(orc.g_prod(v))
         want['g_prod'] = gp
